@@ -21,7 +21,7 @@ ID = "C14"
 LEVEL = "exploration"
 RULE = (
     "A pool of ~100 complete compile-and-match operations is built (files written once, before anything runs) covering pairwise: each full-match flag {absent,false,true}; "
-    "valid_addr_range {absent, two ranges}; sections {absent, two lists} on a generated ELF; style {absent, att}; captures {0,1,3 names}; macros {none, inline, shared extra "
+    "valid_addr_range {absent, two ranges}; sections {absent, two lists} on a generated ELF; style {absent, att, intel}; captures {0,1,3 names}; macros {none, inline, shared extra "
     "macro file whose body refers to a macro each rule defines differently}; inputs {two listings, one binary}; the 8 result modes; and failing operations (bad config type, "
     "undefined macro, missing file). Histories (sequences of 2-40 pool operations, 120 in thorough; operations and 'repeat previous' drawn by Hypothesis, shrunk as one value) "
     "are executed in one process forked from a parent that never ran JASM; each step's outcome (value or exception type) is compared with the outcome of the same operation "
@@ -98,7 +98,7 @@ def build_pool(seed, d):
     for secs in (None, [".text"], [".text.hot"], [".text.hot", ".text"]):
         for rule in (["push", "mov"], ["lea"], ["pop", "ret"]):
             add(f"sections {secs}", jasm_io.make_doc(rule, config={"sections": secs} if secs else None), bn, {"sections": json.dumps(secs) if secs else None}, binary=True, mode=("list", "all", True))
-    for style in (None, "att"):
+    for style in (None, "att", "intel"):
         add(f"style {style}", jasm_io.make_doc(["push"], config={"style": style} if style else None), bn, {"style": style}, binary=True)
         add(f"style {style} asm", jasm_io.make_doc(["ret"], config={"style": style} if style else None), la, {"style": style})
     add("captures 1", jasm_io.make_doc([{"push": ["&x"]}, {"pop": ["&x"]}]), la, {"captures": 1}, mode=("list", "all", False))
@@ -320,6 +320,10 @@ def evaluate(case):
         if got[0] == "inconclusive":
             ev.inconclusive += 1
             continue
+        if got[0] == "exc" and got[1] == "SecondCallOnSameInstanceDiffers":
+            # repeating the operation on the very same MasterOfPuppets gave another answer (also wrong in a fresh process)
+            ev.dev("repeat-on-same-instance-differs", step=step, operation=pool[k]["name"])
+            break
         if got != base[k]:
             ev.dev("history-dependent-result", step=step, operation=pool[k]["name"], predecessor=pool[h[step - 1]]["name"] if step else None,
                    expected_as_first_in_fresh_process=_short(base[k]), observed=_short(got), history=[pool[x]["name"] for x in h[: step + 1]][-6:])
